@@ -1,7 +1,7 @@
 /-
 C06 — control request bodies follow the DSP0236 command layouts (partial: finding D5, query_hop).
 -/
-import Mctp.Lemmas.Encode
+import Mctp.Lemmas.EncodeApi
 import Mctp.Spec.Api
 namespace Mctp
 namespace C06
@@ -13,20 +13,27 @@ theorem body_partial (c : Ctx) (dst : B) (e : Enc) (buf buf' body : Bytes) (n : 
     (hb : Spec.reqBody e = some body)
     (h : encode c dst e buf = .ok (buf', n)) :
     Spec.sub (buf'.take n) 9 (n - 1) = body := by
-  sorry
+  obtain ⟨t, hd, d, hbd, hs⟩ := encode_ok_sub9 h
+  rw [hs, reqBody_body hq ha hb hbd]
 
 /-- finding D5: `query_hop` carries command code 0x0E (Get Network ID) instead of 0x0F;
 everything else of its body is as specified -/
 theorem query_hop_code (c : Ctx) (dst a t : B) (buf buf' : Bytes) (n : Nat)
     (h : encode c dst (.reqQueryHop a t) buf = .ok (buf', n)) :
     Spec.sub (buf'.take n) 9 (n - 1) = [0x80#8, 0x0E#8, a, t] := by
-  sorry
+  obtain ⟨t', hd, d, hbd, hs⟩ := encode_ok_sub9 h
+  enc_body_inv hbd
+  rw [hs, ctrlHeader_eq]
+  rfl
 
 /-- the full statement fails exactly there -/
 theorem query_hop_violates (c : Ctx) (dst a t : B) (buf buf' : Bytes) (n : Nat)
     (h : encode c dst (.reqQueryHop a t) buf = .ok (buf', n)) :
     some (Spec.sub (buf'.take n) 9 (n - 1)) ≠ Spec.reqBody (.reqQueryHop a t) := by
-  sorry
+  rw [query_hop_code c dst a t buf buf' n h]
+  have h2 : Spec.reqBody (.reqQueryHop a t) = some [0x80#8, 0x0F#8, a, t] := rfl
+  rw [h2]
+  simp
 
 end C06
 end Mctp
